@@ -516,6 +516,28 @@ def popwrites_of(cls_methods: dict, phase: str, gk: str) -> list[tuple]:
     return out
 
 
+def wmap_programs(cls_methods: dict, phase: str, gk: str) -> list:
+    """[(flag, program text or None)] for every WMap write reachable from the phase's method, in the order popwrites_of lists them"""
+    from . import elitprog
+    out = []
+    el = Elit(cls_methods, gk)
+    for m in reachable_methods(cls_methods, phase):
+        fns = {n.name: n for n in ast.walk(m) if isinstance(n, ast.FunctionDef) and n is not m}
+        for n in ast.walk(m):
+            if isinstance(n, ast.Assign) and len(n.targets) == 1 and is_self_attr(n.targets[0], "_population"):
+                v = n.value
+                if isinstance(v, ast.ListComp) and len(v.generators) == 1 and not v.generators[0].ifs and pop_iter_shape(v.generators[0].iter):
+                    g = v.generators[0]
+                    shape = pop_iter_shape(g.iter)
+                    slot = None
+                    if shape == "plain" and isinstance(g.target, ast.Name): slot = g.target.id
+                    if shape == "enum" and isinstance(g.target, ast.Tuple) and len(g.target.elts) == 2 and isinstance(g.target.elts[1], ast.Name): slot = g.target.elts[1].id
+                    flag = slot is not None and el.expr(v.elt, {slot}, fns)
+                    prog = elitprog.element_program(cls_methods, gk, m, v, slot) if slot is not None else None
+                    out.append((bool(flag), prog))
+    return out
+
+
 # ----------------------------------------------------------------------------------------------- C. fields
 class Flow:
     """must-def / use-before-def over self.<field>, inlining self.m() and local functions at their call sites"""
@@ -905,6 +927,7 @@ def analyse(repo: Path) -> tuple[list[dict], list[str]]:
         prov = provenance(pkg, cls, None)
         sk = {"name": name, "package": pkg.name, "greedy": gk, **prov,
               "step": popwrites_of(methods, "optimization_step", gk),
+              "programs": wmap_programs(methods, "optimization_step", gk),
               "after_init": popwrites_of(methods, "after_initialization", gk),
               "before_init": popwrites_of(methods, "before_initialization", gk),
               "init_pop_overridden": "_init_population" in methods,
@@ -990,3 +1013,17 @@ def emit_algos(sks: list[dict], missing: list[str]) -> str:
     out.append("(* exported optimizer classes for which no class definition was found (fail closed) *)")
     out.append("Definition missing_skeletons : list string := [" + "; ".join(coq_str(m) for m in missing) + "].\n")
     return "\n".join(out)
+
+
+def emit_progs(sks: list[dict]) -> str:
+    """gen/ElitProgs.v: the element program of every WMap write of every optimizer's optimization_step, with T-algo's own flag beside it"""
+    out = ["(* GENERATED from /repo/pyvolutionary/*/ by pv/talgo.py + pv/elitprog.py on every run - do not edit. *)",
+           "From Coq Require Import String List ZArith.", "From PV Require Import ElitLang.", "Import ListNotations.", "Open Scope string_scope.", "Open Scope nat_scope.", ""]
+    rows = []
+    for sk in sks:
+        items = []
+        for flag, prog in sk.get("programs", []):
+            items.append(f"({'true' if flag else 'false'}, {('Some ' + prog) if prog is not None else 'None'})")
+        rows.append(f"  ({coq_str(sk['name'])}, [" + ";\n     ".join(items) + "])")
+    out.append("Definition elit_programs : list (string * list (bool * option exp)) := [\n" + ";\n".join(rows) + "\n].")
+    return "\n".join(out) + "\n"
